@@ -22,6 +22,7 @@ from aws_durable_execution_sdk_python.concurrency.models import (
 )
 from aws_durable_execution_sdk_python.config import ChildConfig
 from aws_durable_execution_sdk_python.exceptions import (
+    BackgroundThreadError,
     OrphanedChildException,
     SuspendExecution,
     TimedSuspendExecution,
@@ -169,6 +170,8 @@ class ConcurrentExecutor(ABC, Generic[CallableType, ResultType]):
         # Event-driven state tracking for when the executor is done
         self._completion_event = threading.Event()
         self._suspend_exception: SuspendExecution | None = None
+        # Checkpointing failure seen by a branch or by the timer thread; re-raised by execute()
+        self._background_error: BackgroundThreadError | None = None
 
         # ExecutionCounters will keep track of completion criteria and on-going counters
         min_successful = self.completion_config.min_successful or len(self.executables)
@@ -215,10 +218,18 @@ class ConcurrentExecutor(ABC, Generic[CallableType, ResultType]):
         ]
         self._completion_event.clear()
         self._suspend_exception = None
+        self._background_error = None
 
         def resubmitter(executable_with_state: ExecutableWithState) -> None:
             """Resubmit a timed suspended task."""
-            execution_state.create_checkpoint()
+            try:
+                execution_state.create_checkpoint()
+            except BackgroundThreadError as bg_error:
+                # Checkpointing is broken: wake the parent so that it terminates the
+                # invocation instead of waiting for a branch that is never resubmitted.
+                self._background_error = bg_error
+                self._completion_event.set()
+                return
             submit_task(executable_with_state)
 
         thread_executor = ThreadPoolExecutor(max_workers=max_workers)
@@ -247,6 +258,10 @@ class ConcurrentExecutor(ABC, Generic[CallableType, ResultType]):
 
                 # Wait for completion
                 self._completion_event.wait()
+
+                # Checkpointing failed underneath a branch: terminate like any other caller
+                if self._background_error is not None:
+                    raise self._background_error
 
                 # Cancel futures that haven't started yet
                 for future in futures:
@@ -319,6 +334,13 @@ class ConcurrentExecutor(ABC, Generic[CallableType, ResultType]):
             result = future.result()
             exe_state.complete(result)
             self.counters.complete_task()
+        except BackgroundThreadError as bg_error:
+            # The checkpoint system failed while this branch was running. It is a
+            # BaseException: left alone it would escape this callback, no-one would ever
+            # set the completion event and the parent would wait forever.
+            self._background_error = bg_error
+            self._completion_event.set()
+            return
         except OrphanedChildException:
             # Parent already completed and returned.
             # State is already RUNNING, which _create_result() marked as STARTED
